@@ -50,6 +50,11 @@ class Par:
     items: Any = field(default_factory=list)
     one: Any = None
 
+    @property
+    def items_once(self):
+        """the inner collection as a ONE-SHOT iterator, a fresh one on every access"""
+        return iter(list(self.items))
+
     def __repr__(self):
         return f"Par{self.k}"
 
@@ -70,7 +75,7 @@ def plan(tier, seed):
 
 
 def floors(tier):
-    return {"distinct_nontrivial": 400, "cls:sel:elem": 500, "cls:sel:parent_elem": 500, "cls:sel:elem_parent": 300, "cls:sel:parent": 300, "cls:primitive_elements": 300, "cls:inner_collection_is_a_symbol_instance": 200,
+    return {"distinct_nontrivial": 400, "cls:sel:elem": 500, "cls:sel:parent_elem": 500, "cls:sel:elem_parent": 300, "cls:sel:parent": 300, "cls:primitive_elements": 300, "cls:parent_is_a_query_reached_only_through_the_attribute": 150, "cls:inner_collection_is_a_symbol_instance": 200,
             "cls:cond:elem_then_parent_or": 150, "cls:cond:parent_then_pred_pair": 100, "cls:cond:elem_then_parent_notand": 150,
             "cls:cond:none": 200, "cls:cond:elem": 200, "cls:cond:parent": 200, "cls:cond:both": 200, "cls:cond:join": 200, "cls:cond:join3": 200, "cls:cond:elem_or": 200, "cls:cond:elem_stacked": 200, "cls:cond:elem_and": 200, "cls:cond:elem_not": 200,
             "cls:scalar": 200, "cls:plain_scalar_value": 60, "cls:reevaluated_after_inner_lists_changed": 150, "cls:has_empty_list": 500, "cls:has_repeated_element": 500, "re:Flatten(@.*)?\\.enter": 2000}
@@ -101,6 +106,11 @@ def gen_case(rng):
                                     "elem_then_parent_or"]),
                 "cond_order": [0, 1, 2], "thr": rng.randint(1, 4), "kthr": rng.randint(0, 3), "thr2": rng.randint(1, 5),
                 "scalar": False, "caching": rng.random() < 0.7}
+    if rng.random() < 0.08:
+        # the parent is itself a query with alternatives (the second one joins another variable) and is reachable only through
+        # the flattened attribute: only its solutions' elements are unnested
+        return {"world": gen_world(rng), "sub_parent": {"k1": rng.randint(1, 5)}, "sel": "elem", "cond": rng.choice(["none", "elem"]),
+                "cond_order": [0, 1, 2], "thr": rng.randint(1, 3), "kthr": 0, "thr2": 1, "scalar": False, "caching": rng.random() < 0.6}
     return {"world": gen_world(rng), "bag": rng.random() < 0.1,
             "sel": rng.choice(["elem", "parent_elem", "parent_elem", "elem_parent", "parent"]),
             "cond": rng.choice(["none", "elem", "parent", "both", "join", "join3", "elem_or", "elem_stacked", "elem_and", "elem_not",
@@ -147,6 +157,8 @@ class _V:
 def expected(case, es, ps):
     out = []
     for pi, p in enumerate(ps):
+        if case.get("sub_parent") and not (p.k == case["sub_parent"]["k1"] or any(z.n == p.k for z in es[:3])):
+            continue
         inner = [p.one] if case["scalar"] else p.items
         for x0 in inner:
             x = _V(x0) if case.get("prim") else x0
@@ -194,6 +206,10 @@ def build_query(case, es, ps):
     lab.update({id(p): f"Par{i}" for i, p in enumerate(ps)})
     with symbolic_mode():
         p = let(Par, ps)
+        if case.get("sub_parent"):
+            from entity_query_language import an as _an, entity as _entity
+            z_ = let(E, es[:3])
+            p = _an(_entity(p, or_(p.k == case["sub_parent"]["k1"], p.k == z_.n)))
         e = flatten(p.one) if case["scalar"] else flatten(p.items)
         conds = []
         c = case["cond"]
@@ -314,6 +330,8 @@ def check_case(case, ctx):
         ctx.cls("cls:primitive_elements")
     if case.get("bag"):
         ctx.cls("cls:inner_collection_is_a_symbol_instance")
+    if case.get("sub_parent"):
+        ctx.cls("cls:parent_is_a_query_reached_only_through_the_attribute")
     exp = expected(case, es, ps)
     ctx.cls("cls:sel:" + case["sel"])
     ctx.cls("cls:cond:" + case["cond"])
@@ -331,10 +349,24 @@ def check_case(case, ctx):
     if len({l for l in lists if l}) >= 2 and 0 < len(exp) and (len(exp) < total or case["cond"] == "none"):
         ctx.nontrivial()
     try:
-        got = run(case, es, ps, case["caching"])[0]
+        both = run(case, es, ps, case["caching"], times=2)
+        got = both[0]
     except Exception as e:
         import traceback
         ctx.fail("EXC", f"{type(e).__name__}: {e}\n{traceback.format_exc()[-700:]}")
+        return
+    repeated = any(len(set(p["items"])) < len(p["items"]) for p in case["world"]["parents"]) and not case["scalar"]
+    conjunctive = case["cond"] in ("none", "elem", "parent", "both", "elem_stacked", "elem_and", "join", "parent_then_pred_pair")
+    if repeated and not conjunctive:
+        # an object listed twice in one inner list under a disjunction: how often its row is returned is not specified (9.5) and
+        # on the unchanged tree differs between a computed and a cache-served evaluation; the row SET has to be the same
+        both = [sorted(set(both[0])), sorted(set(both[1]))]
+    if Counter(both[1]) != Counter(both[0]):
+        # the same query object, unchanged data: the second evaluation returns the rows of the first (also how often a
+        # repeated element of one list is returned)
+        ctx.fail("SECOND_EVALUATION_DIFFERS", {"first": len(got), "second": len(both[1]),
+                                               "only_first": list((Counter(got) - Counter(both[1])).elements())[:6],
+                                               "only_second": list((Counter(both[1]) - Counter(got)).elements())[:6]})
         return
     # An object that occurs twice in ONE inner list gives two identical (parent, element) bindings.  UNNEST would return
     # both, C02 says an identical row is not returned twice; the statement's quantifier does not mention such lists, so
@@ -353,7 +385,8 @@ def check_case(case, ctx):
                         "n_observed": len(got)})
     elif upper != lower and g != upper:
         ctx.count("repeated_element_in_one_list_collapsed")
-    if case["cond"] == "none" and not case["scalar"] and not case.get("prim") and not case.get("bag") and not (miss or extra):
+    if case["cond"] == "none" and not case["scalar"] and not case.get("prim") and not case.get("bag") and not case.get("sub_parent") \
+            and not (miss or extra):
         # a query without conditions holds no cached truth values: evaluated again after the inner collections changed,
         # the same query object unnests the collections as they are now
         ctx.cls("cls:reevaluated_after_inner_lists_changed")
